@@ -1,6 +1,7 @@
 package roundrobin
 
 import (
+	"errors"
 	"net/http"
 	"net/url"
 	"time"
@@ -26,6 +27,8 @@ type vfPool interface {
 	RemoveServer(u *url.URL) error
 	UpsertServer(u *url.URL, options ...ServerOption) error
 }
+
+var errVfMeter = errors.New("no meter")
 
 type vfIdleMeter struct{}
 
@@ -95,7 +98,7 @@ func vfCheckPool(p vfPool, rr *RoundRobin, us []*url.URL, ref *vfRef) {
 }
 
 // one full rotation: only positive-weight members are chosen, each at least once
-func vfCheckRotation(p vfPool, next func() (*url.URL, error), us []*url.URL, ref *vfRef, down *vfDownstream, viaHTTP bool) {
+func vfCheckRotation(p vfPool, next func() (*url.URL, error), us []*url.URL, ref *vfRef, down *vfDownstream, viaHTTP bool, failedRemoveAt int) {
 	total := 0
 	for id := 0; id < 3; id++ {
 		if ref.member[id] {
@@ -117,6 +120,16 @@ func vfCheckRotation(p vfPool, next func() (*url.URL, error), us []*url.URL, ref
 	}
 	var hits [3]int
 	for k := 0; k < total; k++ {
+		if k == failedRemoveAt {
+			// a remove of an unknown server in mid-rotation fails and changes nothing: the
+			// rotation below still reaches every positive-weight member
+			for id := 0; id < 3; id++ {
+				if !ref.member[id] {
+					verifAssert("remove-unknown-fails", p.RemoveServer(us[vfRep[id]]) != nil)
+					break
+				}
+			}
+		}
 		var u *url.URL
 		if viaHTTP {
 			before := down.calls
@@ -159,8 +172,14 @@ func VerifC02History() {
 	rr, err := New(down)
 	verifAssert("new-ok", err == nil)
 	var p vfPool = rr
+	meterFail := false
 	if kind == 1 {
-		rb, err := NewRebalancer(rr, RebalancerMeter(func() (Meter, error) { return vfIdleMeter{}, nil }))
+		rb, err := NewRebalancer(rr, RebalancerMeter(func() (Meter, error) {
+			if meterFail {
+				return nil, errVfMeter
+			}
+			return vfIdleMeter{}, nil
+		}))
 		verifAssert("new-rebalancer-ok", err == nil)
 		p = rb
 	}
@@ -179,6 +198,16 @@ func VerifC02History() {
 		ref.member[i], ref.weight[i] = true, w
 		ref.count++
 	}
+	// mode 0: plain histories, rotation via NextServer or ServeHTTP (symbolic);
+	// mode 1: a failing remove of an unknown server at a symbolic point in mid-rotation;
+	// mode 2: the rebalancer's meter factory fails at one symbolic step.
+	mode := verifParam("mode")
+	mfStep := -1
+	if mode == 2 {
+		mv := verifInt("meterFailStep")
+		verifAssume(verifAnd(mv >= 0, mv < k))
+		mfStep = verifConcretize(mv, 0, k-1)
+	}
 	for step := 0; step < k; step++ {
 		opv := verifInt(verifName("op", step))
 		verifAssume(verifAnd(opv >= 0, opv <= 2))
@@ -191,12 +220,18 @@ func VerifC02History() {
 		}
 		u := us[ui]
 		id := vfIdent[ui]
+		meterFail = kind == 1 && step == mfStep
 		switch op {
 		case 0: // upsert with explicit weight
 			wv := verifInt(verifName("w", step))
 			verifAssume(verifAnd(wv >= 0, wv <= 2))
 			w := verifConcretize(wv, 0, 2)
 			err := p.UpsertServer(u, Weight(w))
+			if meterFail && !ref.member[id] {
+				// the add failed half-way (no meter): the server is not a member
+				verifAssert("failed-add-reports-error", err != nil)
+				break
+			}
 			verifAssert("upsert-ok", err == nil)
 			if ref.member[id] {
 				ref.weight[id] = w
@@ -210,6 +245,10 @@ func VerifC02History() {
 			}
 		case 1: // upsert without options
 			err := p.UpsertServer(u)
+			if meterFail && !ref.member[id] {
+				verifAssert("failed-add-reports-error", err != nil)
+				break
+			}
 			verifAssert("upsert-ok", err == nil)
 			if !ref.member[id] {
 				ref.member[id] = true
@@ -227,9 +266,19 @@ func VerifC02History() {
 				verifAssert("remove-unknown-fails", err != nil)
 			}
 		}
+		meterFail = false
 		vfCheckPool(p, rr, us, ref)
 	}
-	vfCheckRotation(p, rr.NextServer, us, ref, down, verifBool("viaHTTP"))
+	viaHTTP, failedRemoveAt := false, -1
+	switch mode {
+	case 0:
+		viaHTTP = verifBool("viaHTTP")
+	case 1:
+		fr := verifInt("failedRemoveAt")
+		verifAssume(verifAnd(fr >= 1, fr <= 2))
+		failedRemoveAt = verifConcretize(fr, 1, 2)
+	}
+	vfCheckRotation(p, rr.NextServer, us, ref, down, viaHTTP, failedRemoveAt)
 	// nothing the downstream handler did to its request changed the pool
 	vfCheckPool(p, rr, us, ref)
 	for _, s := range p.Servers() {
